@@ -314,7 +314,7 @@ Proof.
     + intros T' cache' C' s' H1 H2. cbn [st_cache st_synth] in *.
       assert (OLD : forall s1, (exists l2 y, rest_of E T' C' = Some l2 /\ nth_error (st_synth st) s1 = Some y /\ sy_bases y = l2) ->
                     exists l2 y, rest_of E T' C' = Some l2 /\
-                                 nth_error (st_synth st ++ [mkSynth (nxt :: t) (inherit (st_decl st) nxt) (declared (st_decl st) nxt)]) s1 = Some y /\
+                                 nth_error (st_synth st ++ [mkSynth (nxt :: t) (inherit (st_decl st) nxt) (declared (st_decl st) nxt) (dspecs (st_decl st) nxt)]) s1 = Some y /\
                                  sy_bases y = l2).
       { intros s1 (l2 & y & R & N & B). exists l2, y. repeat split; auto.
         rewrite nth_error_app1; auto. apply nth_error_Some. congruence. }
@@ -347,11 +347,31 @@ Lemma implementedBy_eq_providedBy uc uc' st C j :
   implementedBy uc E st (ASuper C j) = providedBy uc' E st (ASuper C j).
 Proof. rewrite providedBy_super, implementedBy_super_eq. reflexivity. Qed.
 
+Lemma providedBy_superC uc st C T :
+  providedBy uc E st (ASuperC C T) =
+  (let '(st', r) := implementedBy_super E st T C in (st', option_map RSynth r)).
+Proof. destruct uc; reflexivity. Qed.
+
+Lemma implementedBy_superC uc st C T :
+  implementedBy uc E st (ASuperC C T) =
+  (let '(st', r) := implementedBy_super E st T C in (st', option_map RSynth r)).
+Proof. destruct uc; reflexivity. Qed.
+
+Lemma class_bound_eq_instance_bound uc uc' st C T j : obj_cls E j = T ->
+  providedBy uc E st (ASuperC C T) = providedBy uc' E st (ASuper C j) /\
+  implementedBy uc E st (ASuperC C T) = implementedBy uc' E st (ASuper C j).
+Proof.
+  intros <-. rewrite providedBy_superC, implementedBy_superC, providedBy_super, implementedBy_super_eq. auto.
+Qed.
+
 Lemma providedBy_inv uc st a : Inv E st ->
   exists st' r, providedBy uc E st a = (st', r) /\
     st_decl st' = st_decl st /\ st_regs st' = st_regs st /\ Inv E st'.
 Proof.
-  intros I. destruct a as [j|C j].
+  intros I. destruct a as [j|C j|C T|C].
+  4:{ exists st, (Some REmpty). destruct uc; cbn; repeat split; auto. }
+  3:{ rewrite providedBy_superC. destruct (ibs_spec st T C I) as (st' & r & Q & A & B & D & _).
+      rewrite Q. eexists _, _. split; [reflexivity|]. repeat split; auto. }
   - exists st, (Some (provided_by_instance E j)). destruct uc; cbn; repeat split; auto.
   - rewrite providedBy_super. destruct (ibs_spec st (obj_cls E j) C I) as (st' & r & Q & A & B & D & _).
     rewrite Q. eexists _, _. split; [reflexivity|]. repeat split; auto.
@@ -361,9 +381,11 @@ Lemma implementedBy_inv uc st a : Inv E st ->
   exists st' r, implementedBy uc E st a = (st', r) /\
     st_decl st' = st_decl st /\ st_regs st' = st_regs st /\ Inv E st'.
 Proof.
-  intros I. destruct a as [j|C j].
+  intros I. destruct a as [j|C j|C T|C].
   - exists st, None. destruct uc; cbn; repeat split; auto.
   - rewrite (implementedBy_eq_providedBy uc uc). apply providedBy_inv; auto.
+  - rewrite implementedBy_superC, <- (providedBy_superC uc). apply providedBy_inv; auto.
+  - exists st, (Some REmpty). destruct uc; cbn; repeat split; auto.
 Qed.
 
 (* the content answered for a proxy, in any state meeting the invariant *)
@@ -384,15 +406,19 @@ End WorldInv.
 (* ------------------------------------------------------------------ histories *)
 (* what a step does to the declarations table, as a function of that table alone *)
 Definition decl_ordered (E : env) (d : decls) (c : cls) (before after : list iface) : decls :=
-  nset d c (mkCD (dedupe (elide E d c before ++ declared d c ++ elide E d c after) []) (inherit d c)).
+  nset d c (mkCD (dedupe (elide E d c before ++ declared d c ++ elide E d c after) []) (dspecs d c) (inherit d c)).
 
 Definition decl_step (E : env) (d : decls) (o : op) : decls :=
   match o with
   | OImplements c ifs =>
       let front x := existsb (fun b => i_extends E x b) (declared d c) in
       decl_ordered E d c (filter front ifs) (filter (fun x => negb (front x)) ifs)
-  | OOnly c ifs => decl_ordered E (nset d c (mkCD [] false)) c ifs []
+  | OOnly c ifs => decl_ordered E (nset d c (mkCD [] [] false)) c ifs []
   | OFirst c i => decl_ordered E d c [i] []
+  | OImplSpec c b =>
+      if Nat.ltb b c && Nat.ltb c (cfuel E) then
+        nset d c (mkCD (declared d c) (if mem b (contrib E d c) then dspecs d c else dspecs d c ++ [b]) (inherit d c))
+      else d
   | _ => d
   end.
 
@@ -407,7 +433,7 @@ Lemma ordered_facts st c b a :
 Proof.
   unfold ordered. split.
   - destruct (notify_decl E (set_decl st c (mkCD (dedupe (elide E (st_decl st) c b ++ declared (st_decl st) c ++ elide E (st_decl st) c a) [])
-                                                 (inherit (st_decl st) c))) c) as (A & _). rewrite A. reflexivity.
+                                                 (dspecs (st_decl st) c) (inherit (st_decl st) c))) c) as (A & _). rewrite A. reflexivity.
   - intros I. apply Inv_notify. apply Inv_set_decl. auto.
 Qed.
 
@@ -437,17 +463,22 @@ Qed.
 Lemma step_facts st o : Inv E st ->
   Inv E (fst (step uc E st o)) /\ st_decl (fst (step uc E st o)) = decl_step E (st_decl st) o.
 Proof.
-  intros I. destruct o as [c ifs|c ifs|c i|a|a|r|v args p n]; cbn [step fst decl_step].
+  intros I. destruct o as [c ifs|c ifs|c i|c b|a|a|r|v args p n]; cbn [step fst decl_step].
   - unfold class_implements. destruct (ordered_facts st c
       (filter (fun x => existsb (fun b => i_extends E x b) (declared (st_decl st) c)) ifs)
       (filter (fun x => negb (existsb (fun b => i_extends E x b) (declared (st_decl st) c))) ifs)) as [A B].
     split; auto.
   - unfold class_implements_only.
-    destruct (ordered_facts (notify E (set_decl st c (mkCD [] false)) c) c ifs []) as [A B].
+    destruct (ordered_facts (notify E (set_decl st c (mkCD [] [] false)) c) c ifs []) as [A B].
     split.
     + apply B. apply Inv_notify. apply Inv_set_decl. auto.
-    + rewrite A. destruct (notify_decl E (set_decl st c (mkCD [] false)) c) as (D & _). rewrite D. reflexivity.
+    + rewrite A. destruct (notify_decl E (set_decl st c (mkCD [] [] false)) c) as (D & _). rewrite D. reflexivity.
   - unfold class_implements_first. destruct (ordered_facts st c [i] []) as [A B]. split; auto.
+  - unfold class_implements_spec. destruct (Nat.ltb b c && Nat.ltb c (cfuel E)); [|auto].
+    split.
+    + apply Inv_notify. apply Inv_set_decl. auto.
+    + match goal with |- st_decl (notify E ?s c) = _ => destruct (notify_decl E s c) as (D & _); rewrite D end.
+      reflexivity.
   - destruct (providedBy_inv E OK uc st a I) as (st' & r & Q & A & B & I'). rewrite Q. cbn. auto.
   - destruct (implementedBy_inv E OK uc st a I) as (st' & r & Q & A & B & I'). rewrite Q. cbn. auto.
   - cbn. split; auto.
@@ -571,8 +602,21 @@ Proof.
   induction f as [|f IH]; intros d c; cbn [flat_cls]; f_equal; f_equal.
   - apply flat_map_ext. apply ianc_ext.
   - apply flat_map_ext. apply ianc_ext.
-  - rewrite G1. destruct (inherit d c); auto. apply flat_map_ext. intros b. apply IH.
+  - rewrite G1. f_equal.
+    + apply flat_map_ext. intros b. apply IH.
+    + destruct (inherit d c); auto. apply flat_map_ext. intros b. apply IH.
 Qed.
+
+Lemma contrib_f_ext f : forall d c, contrib_f E f d c = contrib_f E' f d c.
+Proof.
+  induction f as [|f IH]; intros d c; cbn [contrib_f]; f_equal.
+  rewrite G1. f_equal.
+  - apply flat_map_ext. intros b. apply IH.
+  - destruct (inherit d c); auto. apply flat_map_ext. intros b. apply IH.
+Qed.
+
+Lemma contrib_ext d c : contrib E d c = contrib E' d c.
+Proof. unfold contrib, cfuel. rewrite G1. apply contrib_f_ext. Qed.
 
 Lemma flat_ext d c : flat E d c = flat E' d c.
 Proof. unfold flat, cfuel. rewrite G1. apply flat_cls_ext. Qed.
@@ -592,9 +636,10 @@ Proof. intros H. induction l; cbn; auto. rewrite H, IHl. auto. Qed.
 Lemma decl_step_ext d o : decl_step E d o = decl_step E' d o.
 Proof.
   destruct o; cbn [decl_step]; auto using decl_ordered_ext.
-  rewrite decl_ordered_ext. f_equal.
-  - apply filter_ext. intros x. apply existsb_ext'. intros b. apply i_extends_ext.
-  - apply filter_ext. intros x. f_equal. apply existsb_ext'. intros b. apply i_extends_ext.
+  - rewrite decl_ordered_ext. f_equal.
+    + apply filter_ext. intros x. apply existsb_ext'. intros b. apply i_extends_ext.
+    + apply filter_ext. intros x. f_equal. apply existsb_ext'. intros b. apply i_extends_ext.
+  - rewrite contrib_ext. unfold cfuel. rewrite G1. reflexivity.
 Qed.
 
 Lemma decl_run_ext ops : forall d, fold_left (decl_step E) ops d = fold_left (decl_step E') ops d.
@@ -676,7 +721,7 @@ End Adaptation.
 Lemma unwrap_super o ob : o_super_of o = Some ob -> unwrap o = ob.
 Proof. unfold unwrap. intros ->. reflexivity. Qed.
 
-Lemma ref_of_synth s : ref_of (3 * s) = RSynth s.
+Lemma ref_of_synth s : ref_of (4 * s) = RSynth s.
 Proof.
   unfold ref_of. rewrite Nat.mul_comm, Nat.mod_mul, Nat.div_mul by lia. reflexivity.
 Qed.
@@ -700,30 +745,37 @@ Proof.
 Qed.
 
 (* the model's adaptation of super(C, ob): which factory runs, and on which object *)
-Lemma adapter_selected_lemma uc E ops v C j p n mro l1 l2 :
-  env_ok E = true -> mro_of E (obj_cls E j) = Some mro -> mro = l1 ++ C :: l2 -> l2 <> [] ->
+Lemma adapter_selected_core uc E ops v a C T u p n mro l1 l2 :
+  (forall st, providedBy uc E st a =
+              (let '(st', r) := implementedBy_super E st T C in (st', option_map RSynth r))) ->
+  (forall st, objs_of uc E st [a] =
+              match providedBy uc E st a with
+              | (st1, Some r) => (st1, Some [mkObj (code_of r) proxy_id (Some u)])
+              | (st1, None) => (st1, None)
+              end) ->
+  env_ok E = true -> mro_of E T = Some mro -> mro = l1 ++ C :: l2 -> l2 <> [] ->
   let st := final uc E ops in
-  exists st' r, adapt uc E st v [ASuper C j] p n = (st', Some r) /\
+  exists st' r, adapt uc E st v [a] p n = (st', Some r) /\
     (forall x, r = RVal x ->
        exists reg q, In reg (st_regs st) /\ r_name reg = n /\ r_req reg = [q] /\
                      (exists c, In c l2 /\ In q (flat E (st_decl st) c)) /\
                      i_isOrExtends E (r_prov reg) p = true /\
-                     x = vid (r_val reg) * 1000 + j mod 10) /\
+                     x = vid (r_val reg) * 1000 + u mod 10) /\
     (r = RDefault ->
        forall reg q, In reg (st_regs st) -> r_name reg = n -> r_req reg = [q] ->
                      i_isOrExtends E (r_prov reg) p = true ->
                      ~ exists c, In c l2 /\ In q (flat E (st_decl st) c)) /\
     r <> RValueError.
 Proof.
-  intros OK M EQ NE st.
+  intros HP HO OK M EQ NE st.
   pose proof (final_inv E OK uc ops) as I. fold st in I.
-  unfold adapt. cbn [objs_of]. rewrite providedBy_super.
-  destruct (ibs_spec E OK st (obj_cls E j) C I) as (st' & r0 & Q & A & B & D & R).
+  unfold adapt. rewrite HO, HP.
+  destruct (ibs_spec E OK st T C I) as (st' & r0 & Q & A & B & D & R).
   rewrite (rest_of_split E OK _ _ _ _ _ M EQ NE) in R. destruct R as (s & y & -> & N & BS).
   rewrite Q. cbn [option_map code_of].
-  set (o := mkObj (3 * s) proxy_id (Some j)).
+  set (o := mkObj (4 * s) proxy_id (Some u)).
   set (fl := iroot :: flat_map (flat E (st_decl st)) l2).
-  assert (UL : u_lookup E st' [3 * s] p n =
+  assert (UL : u_lookup E st' [4 * s] p n =
                option_map r_val (find (fun r => Nat.eqb (r_name r) n && all_mem (r_req r) [fl]
                                                 && i_isOrExtends E (r_prov r) p) (st_regs st))).
   { unfold u_lookup, lookup_flat. cbn [map]. rewrite ref_of_synth. cbn [flat_ref]. unfold flat_synth.
@@ -732,10 +784,10 @@ Proof.
                            | ViaMulti => (st', Some (snd (queryMultiAdapter (u_lookup E st') call empty_caches [o] p (NStr n))))
                            | _ => (st', Some (snd (adapter_hook (u_lookup E st') call empty_caches p o (NStr n))))
                            end) = (st', Some r) /\
-                          r = invoke call (u_lookup E st' [3 * s] p n) [j]).
+                          r = invoke call (u_lookup E st' [4 * s] p n) [u]).
   { destruct v; eexists; (split; [reflexivity|]).
-    - apply (adapter_hook_super_lemma _ _ empty_caches p o n j eq_refl (coherent_empty _)).
-    - apply (adapter_hook_super_lemma _ _ empty_caches p o n j eq_refl (coherent_empty _)).
+    - apply (adapter_hook_super_lemma _ _ empty_caches p o n u eq_refl (coherent_empty _)).
+    - apply (adapter_hook_super_lemma _ _ empty_caches p o n u eq_refl (coherent_empty _)).
     - apply (queryMultiAdapter_lemma _ _ empty_caches [o] p n (coherent_empty _)). }
   destruct RES as (r & RQ & RV).
   exists st', r. split.
@@ -755,6 +807,47 @@ Proof.
     assert (T2 : all_mem (r_req reg) [fl] = true).
     { apply all_mem_single. exists q. split; auto. apply (in_rest_content E (st_decl st) l2 q NE). auto. }
     rewrite T1, T2, PE in FN. discriminate.
+Qed.
+
+Lemma adapter_selected_lemma uc E ops v C j p n mro l1 l2 :
+  env_ok E = true -> mro_of E (obj_cls E j) = Some mro -> mro = l1 ++ C :: l2 -> l2 <> [] ->
+  let st := final uc E ops in
+  exists st' r, adapt uc E st v [ASuper C j] p n = (st', Some r) /\
+    (forall x, r = RVal x ->
+       exists reg q, In reg (st_regs st) /\ r_name reg = n /\ r_req reg = [q] /\
+                     (exists c, In c l2 /\ In q (flat E (st_decl st) c)) /\
+                     i_isOrExtends E (r_prov reg) p = true /\
+                     x = vid (r_val reg) * 1000 + j mod 10) /\
+    (r = RDefault ->
+       forall reg q, In reg (st_regs st) -> r_name reg = n -> r_req reg = [q] ->
+                     i_isOrExtends E (r_prov reg) p = true ->
+                     ~ exists c, In c l2 /\ In q (flat E (st_decl st) c)) /\
+    r <> RValueError.
+Proof.
+  apply adapter_selected_core.
+  - intros st. apply providedBy_super.
+  - intros st. cbn [objs_of]. destruct (providedBy uc E st (ASuper C j)) as [st1 [r|]]; reflexivity.
+Qed.
+
+(* the class-bound proxy super(C, T): same selection, the factory receives the class object T *)
+Lemma adapter_selected_class_bound_lemma uc E ops v C T p n mro l1 l2 :
+  env_ok E = true -> mro_of E T = Some mro -> mro = l1 ++ C :: l2 -> l2 <> [] ->
+  let st := final uc E ops in
+  exists st' r, adapt uc E st v [ASuperC C T] p n = (st', Some r) /\
+    (forall x, r = RVal x ->
+       exists reg q, In reg (st_regs st) /\ r_name reg = n /\ r_req reg = [q] /\
+                     (exists c, In c l2 /\ In q (flat E (st_decl st) c)) /\
+                     i_isOrExtends E (r_prov reg) p = true /\
+                     x = vid (r_val reg) * 1000 + cls_ident T mod 10) /\
+    (r = RDefault ->
+       forall reg q, In reg (st_regs st) -> r_name reg = n -> r_req reg = [q] ->
+                     i_isOrExtends E (r_prov reg) p = true ->
+                     ~ exists c, In c l2 /\ In q (flat E (st_decl st) c)) /\
+    r <> RValueError.
+Proof.
+  apply adapter_selected_core.
+  - intros st. apply providedBy_superC.
+  - intros st. cbn [objs_of]. destruct (providedBy uc E st (ASuperC C T)) as [st1 [r|]]; reflexivity.
 Qed.
 
 (* ------------------------------------------------------------------ what the content means *)
@@ -792,46 +885,92 @@ Proof.
   unfold irk. destruct (Nat.leb q (length (e_ig E))) eqn:L; [apply Nat.leb_le in L|]; lia.
 Qed.
 
-Lemma flat_cls_spec d f : forall c i, crk E c <= f ->
+Lemma crk_spec d c b : specs_ok E d -> In b (dspecs d c) -> crk E b < crk E c.
+Proof.
+  intros SO H. destruct (SO c b H) as [L1 L2]. unfold crk, cfuel.
+  assert (A : Nat.ltb c (length (e_cg E)) = true) by (apply Nat.ltb_lt; auto).
+  assert (B : Nat.ltb b (length (e_cg E)) = true) by (apply Nat.ltb_lt; lia).
+  rewrite A, B. auto.
+Qed.
+
+Lemma flat_cls_spec d f : specs_ok E d -> forall c i, crk E c <= f ->
   (In i (flat_cls E f d c) <->
    i = iroot \/ exists c' q, Contributes E d c c' /\ In q (declared d c') /\ In i (ianc E q)).
 Proof.
-  induction f as [|f IH]; intros c i H.
+  intros SO. induction f as [|f IH]; intros c i H.
   - cbn [flat_cls]. rewrite app_nil_r. split.
     + intros [<-|HI]; auto. right. apply in_flat_map in HI. destruct HI as (q & Hq & Hi).
       exists c, q. split; [constructor|auto].
     + intros [->|(c' & q & CO & Hq & Hi)]; [cbn; auto|]. right. apply in_flat_map.
       inversion CO; subst; eauto.
-      exfalso. assert (Z : crk E c = 0) by lia. rewrite (crk_zero_bases E OK c Z) in H1. destruct H1.
+      * exfalso. assert (Z : crk E c = 0) by lia. rewrite (crk_zero_bases E OK c Z) in H1. destruct H1.
+      * exfalso. pose proof (crk_spec d c b SO H0). lia.
   - cbn [flat_cls]. split.
     + intros [<-|HI]; auto. apply in_app_or in HI. destruct HI as [HI|HI].
       * right. apply in_flat_map in HI. destruct HI as (q & Hq & Hi). exists c, q. split; [constructor|auto].
-      * destruct (inherit d c) eqn:INH; [|destruct HI].
-        apply in_flat_map in HI. destruct HI as (b & Hb & Hi).
-        destruct (env_wf E OK c) as [_ R]. specialize (R b Hb).
-        apply IH in Hi; [|lia]. destruct Hi as [->|(c' & q & CO & Hq & Hi)]; auto.
-        right. exists c', q. split; auto. econstructor; eauto.
+      * apply in_app_or in HI. destruct HI as [HI|HI].
+        -- apply in_flat_map in HI. destruct HI as (b & Hb & Hi).
+           pose proof (crk_spec d c b SO Hb) as R.
+           apply IH in Hi; [|lia]. destruct Hi as [->|(c' & q & CO & Hq & Hi)]; auto.
+           right. exists c', q. split; auto. eapply Contributes_spec; eauto.
+        -- destruct (inherit d c) eqn:INH; [|destruct HI].
+           apply in_flat_map in HI. destruct HI as (b & Hb & Hi).
+           destruct (env_wf E OK c) as [_ R]. specialize (R b Hb).
+           apply IH in Hi; [|lia]. destruct Hi as [->|(c' & q & CO & Hq & Hi)]; auto.
+           right. exists c', q. split; auto. eapply Contributes_base; eauto.
     + intros [->|(c' & q & CO & Hq & Hi)]; [cbn; auto|]. right. apply in_or_app.
       inversion CO; subst.
       * left. apply in_flat_map. eauto.
-      * right. rewrite H0. apply in_flat_map. exists b. split; auto.
+      * right. apply in_or_app. right. rewrite H0. apply in_flat_map. exists b. split; auto.
         destruct (env_wf E OK c) as [_ R]. specialize (R b H1).
+        apply IH; [lia|]. right. eauto.
+      * right. apply in_or_app. left. apply in_flat_map. exists b. split; auto.
+        pose proof (crk_spec d c b SO H0) as R.
         apply IH; [lia|]. right. eauto.
 Qed.
 
-Lemma flat_semantics_lemma d c i :
-  In i (flat E d c) <->
-  i = iroot \/ exists c' q, Contributes E d c c' /\ In q (declared d c') /\ Reach (bases (e_ig E)) q i.
+Lemma flat_semantics_lemma d c i : specs_ok E d ->
+  (In i (flat E d c) <->
+   i = iroot \/ exists c' q, Contributes E d c c' /\ In q (declared d c') /\ Reach (bases (e_ig E)) q i).
 Proof.
-  unfold flat. rewrite flat_cls_spec by (pose proof (crk_lt E OK c); lia).
+  intros SO. unfold flat. rewrite flat_cls_spec by (auto; pose proof (crk_lt E OK c); lia).
   split; (intros [->|(c' & q & A & B & D)]; [auto|right; exists c', q; repeat split; auto; apply ianc_reach; auto]).
 Qed.
 
+(* the classes in the __sro__ of implementedBy(c) *)
+Lemma contrib_f_spec d f : specs_ok E d -> forall c x, crk E c <= f ->
+  (In x (contrib_f E f d c) <-> Contributes E d c x).
+Proof.
+  intros SO. induction f as [|f IH]; intros c x H.
+  - cbn [contrib_f]. split.
+    + intros [<-|[]]. constructor.
+    + intros CO. inversion CO; subst; [cbn; auto| |].
+      * exfalso. assert (Z : crk E c = 0) by lia. rewrite (crk_zero_bases E OK c Z) in H1. destruct H1.
+      * exfalso. pose proof (crk_spec d c b SO H0). lia.
+  - cbn [contrib_f]. split.
+    + intros [<-|HI]; [constructor|]. apply in_app_or in HI. destruct HI as [HI|HI].
+      * apply in_flat_map in HI. destruct HI as (b & Hb & Hi).
+        pose proof (crk_spec d c b SO Hb) as R. apply IH in Hi; [|lia]. eapply Contributes_spec; eauto.
+      * destruct (inherit d c) eqn:INH; [|destruct HI].
+        apply in_flat_map in HI. destruct HI as (b & Hb & Hi).
+        destruct (env_wf E OK c) as [_ R]. specialize (R b Hb).
+        apply IH in Hi; [|lia]. eapply Contributes_base; eauto.
+    + intros CO. inversion CO; subst; [cbn; auto| |]; right; apply in_or_app.
+      * right. rewrite H0. apply in_flat_map. exists b. split; auto.
+        destruct (env_wf E OK c) as [_ R]. specialize (R b H1). apply IH; [lia|auto].
+      * left. apply in_flat_map. exists b. split; auto.
+        pose proof (crk_spec d c b SO H0) as R. apply IH; [lia|auto].
+Qed.
+
+Lemma contrib_lemma d c x : specs_ok E d -> (In x (contrib E d c) <-> Contributes E d c x).
+Proof. intros SO. unfold contrib. apply contrib_f_spec; auto. pose proof (crk_lt E OK c). lia. Qed.
+
 (* ---- who is notified *)
 Lemma in_dependents d c y :
-  In y (dependents E d c) <-> In y (map fst (e_cg E)) /\ inherit d y = true /\ In c (bases (e_cg E) y).
+  In y (dependents E d c) <->
+  In y (map fst (e_cg E)) /\ ((inherit d y = true /\ In c (bases (e_cg E) y)) \/ In c (dspecs d y)).
 Proof.
-  unfold dependents. rewrite filter_In, andb_true_iff, mem_In. tauto.
+  unfold dependents. rewrite filter_In, orb_true_iff, andb_true_iff, !mem_In. tauto.
 Qed.
 
 Lemma notified_sound d f : forall c x, In x (notified E d f c) -> Hears E d x c.
@@ -839,21 +978,27 @@ Proof.
   induction f as [|f IH]; intros c x; cbn [notified].
   - intros [<-|[]]. constructor.
   - intros [<-|H]; [constructor|]. apply in_flat_map in H. destruct H as (y & Hy & Hx).
-    apply in_dependents in Hy. destruct Hy as (A & B & D). eapply Hears_sub; eauto.
+    apply in_dependents in Hy. destruct Hy as (A & [[B D]|B]).
+    + eapply Hears_sub; eauto.
+    + eapply Hears_decl; eauto.
 Qed.
 
-Lemma notified_complete d f : forall c x, cfuel E - c <= f -> Hears E d x c -> In x (notified E d f c).
+Lemma notified_complete d f : specs_ok E d ->
+  forall c x, cfuel E - c <= f -> Hears E d x c -> In x (notified E d f c).
 Proof.
-  induction f as [|f IH]; intros c x H HE.
+  intros SO. induction f as [|f IH]; intros c x H HE.
   - cbn. inversion HE; subst; auto.
-    exfalso. destruct (bases_lt E OK y c H2). lia.
-  - cbn [notified]. inversion HE; subst; [cbn; auto|]. right. apply in_flat_map. exists y. split.
+    + exfalso. destruct (bases_lt E OK y c H2). lia.
+    + exfalso. destruct (SO y c H1). unfold cfuel in H. lia.
+  - cbn [notified]. inversion HE; subst; [cbn; auto| |]; right; apply in_flat_map; exists y; split.
     + apply in_dependents. auto.
     + apply IH; auto. destruct (bases_lt E OK y c H2). lia.
+    + apply in_dependents. auto.
+    + apply IH; auto. destruct (SO y c H1). unfold cfuel in *. lia.
 Qed.
 
-Lemma notified_lemma d c x : In x (notified E d (cfuel E) c) <-> Hears E d x c.
-Proof. split; [apply notified_sound|apply notified_complete; lia]. Qed.
+Lemma notified_lemma d c x : specs_ok E d -> (In x (notified E d (cfuel E) c) <-> Hears E d x c).
+Proof. intros SO. split; [apply notified_sound|apply notified_complete; auto; lia]. Qed.
 
 (* notify deletes exactly the caches of the classes that hear about the change *)
 Lemma drops_cache l : forall st T,
@@ -865,14 +1010,14 @@ Proof.
   - apply Nat.eqb_neq in EQ. destruct (mem T l); auto. apply nget_ndel_neq. auto.
 Qed.
 
-Lemma notify_cache_lemma st c T :
+Lemma notify_cache_lemma st c T : specs_ok E (st_decl st) ->
   (Hears E (st_decl st) T c -> nget (st_cache (notify E st c)) T = None) /\
   (~ Hears E (st_decl st) T c -> nget (st_cache (notify E st c)) T = nget (st_cache st) T).
 Proof.
-  unfold notify. rewrite drops_cache. split; intros H.
-  - apply notified_lemma in H. apply mem_In in H. rewrite H. auto.
+  intros SO. unfold notify. rewrite drops_cache. split; intros H.
+  - apply notified_lemma in H; auto. apply mem_In in H. rewrite H. auto.
   - destruct (mem T (notified E (st_decl st) (cfuel E) c)) eqn:M; auto.
-    apply mem_In in M. apply notified_lemma in M. tauto.
+    apply mem_In in M. apply notified_lemma in M; auto. tauto.
 Qed.
 End Meaning.
 
@@ -888,15 +1033,83 @@ Lemma multi_adaptation_lemma (ul : list spec -> spec -> name -> option value)
   forall o ob, o_super_of o = Some ob -> unwrap o = ob.
 Proof. intros. split; [apply queryMultiAdapter_lemma; assumption|exact unwrap_super]. Qed.
 
-Lemma flat_semantics_thm E d c i : env_ok E = true ->
+Lemma flat_semantics_thm E d c i : env_ok E = true -> specs_ok E d ->
   (In i (flat E d c) <->
    i = iroot \/ exists c' q, Contributes E d c c' /\ In q (declared d c') /\ Reach (bases (e_ig E)) q i).
 Proof. intros OK. apply flat_semantics_lemma. exact OK. Qed.
 
-Lemma notified_thm E st c T : env_ok E = true ->
+Lemma notified_thm E st c T : env_ok E = true -> specs_ok E (st_decl st) ->
   (In T (notified E (st_decl st) (cfuel E) c) <-> Hears E (st_decl st) T c) /\
   (Hears E (st_decl st) T c -> nget (st_cache (notify E st c)) T = None) /\
   (~ Hears E (st_decl st) T c -> nget (st_cache (notify E st c)) T = nget (st_cache st) T).
 Proof.
-  intros OK. split; [apply notified_lemma; exact OK|apply notify_cache_lemma; exact OK].
+  intros OK SO. split; [apply notified_lemma; auto|apply notify_cache_lemma; auto].
 Qed.
+
+(* ---- every history keeps declared class specifications pointing backwards *)
+Lemma dspecs_nset d c x c' : dspecs (nset d c x) c' = if Nat.eqb c c' then cd_specs x else dspecs d c'.
+Proof.
+  unfold dspecs, decl_of. destruct (Nat.eqb c c') eqn:Q.
+  - apply Nat.eqb_eq in Q. subst. rewrite nget_nset_eq. reflexivity.
+  - apply Nat.eqb_neq in Q. rewrite nget_nset_neq by auto. reflexivity.
+Qed.
+
+Lemma specs_ok_keep E d c x : specs_ok E d -> (forall b, In b (cd_specs x) -> b < c /\ c < length (e_cg E)) ->
+  specs_ok E (nset d c x).
+Proof.
+  intros SO H c' b. rewrite dspecs_nset. destruct (Nat.eqb c c') eqn:Q; [|apply SO].
+  apply Nat.eqb_eq in Q. subst. apply H.
+Qed.
+
+Lemma decl_step_specs_ok E d o : specs_ok E d -> specs_ok E (decl_step E d o).
+Proof.
+  intros SO. destruct o as [c ifs|c ifs|c i|c b|a|a|r|v args p n]; cbn [decl_step]; auto.
+  - unfold decl_ordered. apply specs_ok_keep; auto.
+  - unfold decl_ordered. apply specs_ok_keep.
+    + apply specs_ok_keep; auto. cbn. tauto.
+    + cbn. rewrite dspecs_nset, Nat.eqb_refl. cbn. tauto.
+  - unfold decl_ordered. apply specs_ok_keep; auto.
+  - destruct (Nat.ltb b c && Nat.ltb c (cfuel E)) eqn:G; auto.
+    apply andb_true_iff in G. destruct G as [G1 G2]. apply Nat.ltb_lt in G1. apply Nat.ltb_lt in G2.
+    apply specs_ok_keep; auto. cbn. intros b' H.
+    destruct (mem b (contrib E d c)); [apply SO; auto|].
+    apply in_app_or in H. destruct H as [H|[<-|[]]]; [apply SO; auto|]. unfold cfuel in G2. auto.
+Qed.
+
+Lemma final_specs_ok uc E ops : env_ok E = true -> specs_ok E (st_decl (final uc E ops)).
+Proof.
+  intros OK. rewrite final_decl by auto.
+  assert (G : forall d, specs_ok E d -> specs_ok E (fold_left (decl_step E) ops d)).
+  { induction ops as [|o ops IH]; intros d SO; cbn; auto. apply IH. apply decl_step_specs_ok. auto. }
+  apply G. intros c b H. destruct H.
+Qed.
+
+(* ------------------------------------------------------------------ class-bound proxies super(C, T) *)
+Lemma class_bound_spec_exact_lemma uc E ops C T mro l1 l2 :
+  env_ok E = true -> mro_of E T = Some mro -> mro = l1 ++ C :: l2 -> l2 <> [] ->
+  exists st' s, providedBy uc E (final uc E ops) (ASuperC C T) = (st', Some (RSynth s)) /\
+    implementedBy uc E (final uc E ops) (ASuperC C T) = (st', Some (RSynth s)) /\
+    st_decl st' = st_decl (final uc E ops) /\
+    forall i, In i (flat_ref E st' (RSynth s)) <->
+              exists c, In c l2 /\ In i (flat E (st_decl (final uc E ops)) c).
+Proof.
+  intros OK M EQ NE. set (st := final uc E ops).
+  pose proof (final_inv E OK uc ops) as I. fold st in I.
+  rewrite implementedBy_superC, providedBy_superC.
+  destruct (ibs_spec E OK st T C I) as (st' & r & Q & A & B & D & R).
+  rewrite (rest_of_split E OK _ _ _ _ _ M EQ NE) in R. destruct R as (s & y & -> & N & BS).
+  rewrite Q. exists st', s. split; [reflexivity|]. split; [reflexivity|]. split; auto.
+  intros i. cbn [flat_ref]. unfold flat_synth. rewrite N, BS, A. apply in_rest_content. auto.
+Qed.
+
+Lemma class_bound_thm E uc uc' st C T j : obj_cls E j = T ->
+  providedBy uc E st (ASuperC C T) = providedBy uc' E st (ASuper C j) /\
+  implementedBy uc E st (ASuperC C T) = implementedBy uc' E st (ASuper C j).
+Proof. apply class_bound_eq_instance_bound. Qed.
+
+(* an unbound proxy super(C) answers the empty declaration and leaves the state alone *)
+Lemma unbound_thm E uc st C :
+  providedBy uc E st (AUnbound C) = (st, Some REmpty) /\
+  implementedBy uc E st (AUnbound C) = (st, Some REmpty) /\
+  flat_ref E st REmpty = [iroot].
+Proof. destruct uc; repeat split; reflexivity. Qed.
